@@ -612,6 +612,7 @@ class PipelineAnalysis:
             self.keep_on_handover = tuple(f['d'][2:] for f in A.B['fields']
                                           if f['d'][2:] not in wl.b_written and A.prog.type(f['t']).get('k') != 'array')
             self.check_cursor()
+        self.check_unpad()
         # --- io-side object invariant of a buffer (joined over construction and every hand-over), by iteration
         self.io_inv = {}
         ctor0 = self.ctor_state()
@@ -721,6 +722,48 @@ def _ctor_state(self):
 PipelineAnalysis.ctor_state = _ctor_state
 
 
+def _check_unpad(self):
+    """R01.f: stripping undoes padding.  The writer's last block of a chunk with load = 16q+t ends in 16-t (R01.a) and the chunk
+    holds q+1 blocks (R01.g); the export routine in decrypt mode, given exactly that, writes 16q+t bytes."""
+    A, rec = self.A, self.rec
+    sumv, bufsz = self.consts()
+    exp = [f for f in A.prog.functions.values() if f.get('rec') == A.Bq and any(
+        n['k'] == 'CallExpr' and n['callee'].get('q') == 'fwrite' for n in walk(f['body']))]
+    if len(exp) != 1:
+        raise AnalysisBroken('export routine of %s not found' % A.Bq)
+    f = exp[0]
+    OBJ = ('ext', 'onebuf')
+    arr = next(x['d'][2:] for x in A.B['fields'] if A.prog.type(x['t']).get('k') == 'array')
+    sizes = []
+
+    class Lst:
+        def on_fwrite(self, I, st, node, root, pos, size, src, fval):
+            sizes.append((size, dict(st.sym)))
+    I = interp.Interp(A.prog, listeners=[Lst()], models=dict(models.STD_MODELS))
+    st = interp.State()
+    st.sym['q'] = (0, bufsz - 1)
+    st.sym['t'] = (0, 15)
+    st.mem[(OBJ, (A.Bq + '::isfinal',))] = C(1)
+    st.mem[(OBJ, (A.Bq + '::now',))] = L(1, {'q': 1})
+    st.mem[(OBJ, (A.Bq + '::total',))] = L(1, {'q': 1})
+    st.mem[(OBJ, (A.Bq + '::tail',))] = C(0)
+    st.mem[(OBJ, (arr, sym('q'), 15))] = L(16, {'t': -1})
+    st.abs = frozenset(k for k in st.mem if any(isinstance(x, tuple) for x in k[1]))
+    args = []
+    for p in f['params']:
+        t = A.prog.type(p['t'])
+        args.append(P(('file', 'fout'), ()) if t.get('k') == 'ptr' else C(0))
+    res = I.run(f, st, this=P(OBJ, ()), args=args)
+    rec.saw(I)
+    ok = len(sizes) >= 1 and all(compare('==', sz, L(0, {'q': 16, 't': 1}), sy) is True for sz, sy in sizes)
+    rec.ob('R01.f', 'R01.f@%s::unpad-inverts-pad' % fkey(f), ok, '%s:%s' % (f['file'], f['line']),
+           'decrypt export of a final chunk of q+1 blocks whose last byte is 16-t writes %s (must be 16q+t, the bytes read by the encrypting side)' % (
+               [show(sz) for sz, _ in sizes][:3]))
+
+
+PipelineAnalysis.check_unpad = _check_unpad
+
+
 class _Null:
     def ob(self, *a, **k):
         return None
@@ -795,6 +838,13 @@ class ChunkRules:
         self.rec.ob('R01.d', 'R01.d@%s::export-size-within-buffer' % fkey(fr.fn), ok, nloc(node),
                     '%s: fwrite of %s bytes (range %s) from a buffer of %d bytes' % (self.mode, show(size), r, cap),
                     path=[str(x) for x in st.trace[-6:]])
+        # R01.h: a final chunk is exported as 16*now bytes minus the stripped padding; a non-final one as the whole buffer
+        isf = I.load(st, (BUFS, (idx, self.A.Bq + '::isfinal')))
+        if self.pad and is_int(now) and now != TOP and is_int(size) and size != TOP:
+            full = compare('==', size, C(self.sumv), st.sym) is True
+            fin = compare('==', size, binop('*', now, C(16), st.sym), st.sym) is True
+            self.rec.ob('R01.h', 'R01.h@%s::export-size-encrypt' % fkey(fr.fn), full or fin, nloc(node),
+                        'encrypt: exported %s bytes with now = %s blocks (whole chunk or 16*now)' % (show(size), show(now)))
         okroot = root == 'fout'
         self.rec.ob('R03.e', 'R03.e@%s::export-to-output' % fkey(fr.fn), okroot, nloc(node), 'chunk exported to stream %s' % (root,))
 
@@ -877,6 +927,15 @@ class ChunkRules:
                     '%s, remaining-length class %s (after read: %s): load state %s, oracle %s' % (
                         self.mode, last, rem, '{' + ','.join(nm.get(x, str(x)) for x in sorted(have or [])) + '}', want),
                     path=[str(x) for x in st.trace[-6:]])
+        # R01.g: the block count is exactly what was read (plus the pad block when encrypting the last chunk)
+        if this is not None and this[0] == 'p' and got is not None and is_int(got) and got != TOP and have is not None and en['NODATA'] not in have:
+            idx = this[2][0]
+            total = I.load(st, (BUFS, (idx, self.A.Bq + '::total')))
+            blocks = binop('>>', got, C(4), st.sym)
+            wantt = add(blocks, C(1), st.sym) if (self.pad and have == {en['FINAL']}) else blocks
+            okt = is_int(total) and total != TOP and compare('==', total, wantt, st.sym) is True
+            self.rec.ob('R01.g', 'R01.g@%s::block-count-%s' % (fkey(f), self.mode), okt, nloc(node),
+                        '%s, class %s: total = %s, bytes read %s (expected %s blocks)' % (self.mode, last, show(total), show(got), show(wantt)))
         # R01.b inside the buffer: not NODATA => total >= 1 and now == 0
         if this is not None and this[0] == 'p':
             idx = this[2][0]
